@@ -11,6 +11,11 @@ from .floats import has_float_ops
 from .verify import build_obligations
 from .values import veq
 
+import sys as _sys
+from .frontend import REPO as _REPO_PATH
+if _sys.path[0] != _REPO_PATH:
+    _sys.path.insert(0, _REPO_PATH)      # native replays import nmea2000 from the tree the VCs came from
+
 _REPO = [None]
 
 
